@@ -22,14 +22,18 @@ from mutants.specs import MUTANTS  # noqa: E402
 BASELINE = json.load(open('/root/.vp/BASELINE.json'))['stable_pass']
 
 
-def run_tests(repo):
+def run_tests(repo, timeout=None):
     junit = os.path.join(repo, '.junit.xml')
-    subprocess.run(['/venv/bin/python', '-m', 'pytest', '-q', '-p',
-                    'no:cacheprovider', '--timeout=900',
-                    '--continue-on-collection-errors', '--junitxml', junit],
-                   cwd=repo, stdout=subprocess.DEVNULL,
-                   stderr=subprocess.DEVNULL,
-                   env=dict(os.environ, PYTHONPATH=repo))
+    try:
+        subprocess.run(['/venv/bin/python', '-m', 'pytest', '-q', '-p',
+                        'no:cacheprovider', '--timeout=900',
+                        '--continue-on-collection-errors', '--junitxml',
+                        junit],
+                       cwd=repo, stdout=subprocess.DEVNULL,
+                       stderr=subprocess.DEVNULL, timeout=timeout,
+                       env=dict(os.environ, PYTHONPATH=repo))
+    except subprocess.TimeoutExpired:
+        return list(BASELINE)              # the suite hangs: not "passing"
     import xml.etree.ElementTree as ET
     passed = set()
     for tc in ET.parse(junit).getroot().iter('testcase'):
